@@ -41,6 +41,15 @@ THEOREMS = [
     'C04_frame_transform_plane', 'C04_frame_transform_sphere',
     'C04_frame_transform_cylinder', 'C04_frame_transform_cone',
     'C04_frame_transform_cone_sheet',
+    'C04_normalize_matrix_9_reproduces', 'C04_normalize_matrix_6_reproduces',
+    'C04_normalize_matrix_6_cols_reproduces',
+    'C04_normalize_matrix_3_reproduces',
+    'C04_normalize_matrix_3_cols_reproduces',
+    'C04_matrix3_row_minus_ex_refuted',
+    'C04_adjust_matrix_fixpoint', 'C04_to_cos_deg', 'C04_tr_card_3',
+    'C04_tr_card_12', 'C04_tr_card_star_12', 'C04_m1_only', 'C04_inline_12',
+    'C04_inline_number', 'C04_implicit_surface',
+    'C04_implicit_surface_value', 'C04_sq_under_transformation_refuted',
 ]
 TRUSTED = [
     'hand-written model coq/C04/Model.v (modelled, tied by execution only)',
